@@ -115,9 +115,9 @@ def run(ctx):
         ctx.extra['vm_compute_shard'] = dict(cases=len(shard), differences_vs_extracted=bad)
         if bad:
             ctx.disagree('extraction vs vm_compute', differences=bad)
-    ctx.assumptions += ['lexemes are separated by white space except next to a parenthesis, after a comment/quoted symbol, '
-                        'after a string literal not followed by a double quote, and between an atom and a following comment',
-                        'comments are kept with their terminating LF']
+    ctx.assumptions += ['lexemes are separated by white space except where the standard lets them touch: next to a parenthesis, after a comment/quoted symbol, '
+                        'after a string literal not followed by a double quote, and between an atom and a following comment, string literal or quoted symbol',
+                        'comments are kept with their terminating line break (LF or CR)']
 
 
 def replay(d):
